@@ -103,7 +103,25 @@ type Stream struct {
 	Units   []Unit `json:"units"` // preamble + core in feed order
 	NPre    int    `json:"npre"`
 	Pad     int    `json:"pad"` // minimum number of pad units
+	// Solo run (part of the core, generated deterministically after Units): SoloN >= 1 frames of one track
+	// (SoloV: video) at its regular frame distance while the other track sends nothing.  Afterwards the other
+	// track either resumes at the same media time (silent in between: its timestamps jump) or, SoloLate, delivers
+	// the frames of that period late.  With SoloN >= 128 the run crosses the limit of lal's A/V interleave queue.
+	SoloN    int  `json:"solo_n,omitempty"`
+	SoloV    bool `json:"solo_v,omitempty"`
+	SoloLate bool `json:"solo_late,omitempty"`
 }
+
+// soloN is the effective length of the solo run (only streams with both tracks have one).
+func (s *Stream) soloN() int {
+	if s.Video == "" || s.Audio == "" || s.SoloN < 0 {
+		return 0
+	}
+	return s.SoloN
+}
+
+// coreEnd is the index (in all()) of the first pad unit.
+func (s *Stream) coreEnd() int { return len(s.Units) + s.soloN() }
 
 var aacRates = []int{96000, 88200, 64000, 48000, 44100, 32000, 24000, 22050, 16000, 12000, 11025, 8000, 7350}
 
@@ -214,14 +232,38 @@ func (s *Stream) all() []Unit {
 	if s.Video != "" && !haveV || s.Audio != "" && !haveA {
 		panic(pbt.HarnessError{Msg: "c07: stream without a preamble frame on every track"})
 	}
-	endV, endA := tv, ta
 	tv += s.VStep
 	ta += s.AStep
-	nv, na := 0, 0
 	slice := []byte{0x41}
 	if s.Video == "hevc" {
 		slice = []byte{1 << 1, 1}
 	}
+	if n := s.soloN(); n > 0 {
+		for i := 0; i < n; i++ {
+			if s.SoloV {
+				ser := uint32(8000000 + i)
+				out = append(out, Unit{V: true, T: tv, Nals: []gen.NalSpec{{Hdr: slice, Len: 12, Seed: ser, Serial: ser}}})
+				tv += s.VStep
+			} else {
+				out = append(out, Unit{T: ta, ALen: 24, ASeed: uint32(8500000 + i)})
+				ta += s.AStep
+			}
+		}
+		if !s.SoloLate {
+			// the silent track resumes where the running one has arrived
+			if s.SoloV {
+				if x := a0 + ((tv-v0)*int64(s.AClock)+int64(s.VClock)-1)/int64(s.VClock); x > ta {
+					ta = x
+				}
+			} else {
+				if x := v0 + ((ta-a0)*int64(s.VClock)+int64(s.AClock)-1)/int64(s.AClock); x > tv {
+					tv = x
+				}
+			}
+		}
+	}
+	endV, endA := tv-s.VStep, ta-s.AStep
+	nv, na := 0, 0
 	for i := 0; ; i++ {
 		done := i >= s.Pad
 		if s.Video != "" && s.Audio != "" {
@@ -276,7 +318,7 @@ type expectation struct {
 // expect expands the stream.  sdpPS is the parameter-set variant+1 announced
 // out of band (RTSP sprop), 0 if none.
 func (s *Stream) expect(sdpPS int) *expectation {
-	e := &expectation{units: s.all(), coreFrom: s.NPre, coreTo: len(s.Units)}
+	e := &expectation{units: s.all(), coreFrom: s.NPre, coreTo: s.coreEnd()}
 	e.vCoreFrom, e.aCoreFrom = -1, -1
 	inForce := sdpPS
 	for i, u := range e.units {
@@ -403,7 +445,7 @@ func genStream(t *rapid.T, o streamOpts) Stream {
 		s.Audio = rapid.SampledFrom([]string{"aac", "aac", "g711a", "g711u", ""}).Draw(t, "acodec")
 	default:
 		s.Video = rapid.SampledFrom([]string{"avc", "avc", "hevc", "hevc", ""}).Draw(t, "vcodec")
-		s.Audio = rapid.SampledFrom([]string{"aac", "aac", ""}).Draw(t, "acodec")
+		s.Audio = rapid.SampledFrom([]string{"aac", "aac", "aac", "g711a", "g711u", "opus", ""}).Draw(t, "acodec")
 	}
 	if s.Video == "" && s.Audio == "" {
 		s.Audio = "aac"
@@ -556,6 +598,11 @@ func genStream(t *rapid.T, o streamOpts) Stream {
 		s.Units = append(s.Units, u)
 	}
 	s.Pad = 130
+	if o.kind == "rtsp" && s.Video != "" && s.Audio != "" && rapid.IntRange(0, 3).Draw(t, "solo") == 2 {
+		s.SoloN = rapid.SampledFrom([]int{127, 128, 129, 130, 140, 200, 257, 300}).Draw(t, "soloN")
+		s.SoloV = rapid.Bool().Draw(t, "soloV")
+		s.SoloLate = rapid.Bool().Draw(t, "soloLate")
+	}
 	if pbt.Thorough() && rapid.IntRange(0, 39).Draw(t, "driftRun") == 23 { // a mid-range value: rapid favours the bounds
 		s.Pad = 5000
 	}
@@ -702,8 +749,14 @@ type obsAudio struct {
 	b   []byte
 	ts  uint32
 	rec int
+	fmt byte   // FLV SoundFormat (high nibble of the first byte)
 	ash []byte // ASC most recently received before (nil = none)
 }
+
+// soundFormat is the FLV / RTMP SoundFormat a consumer needs to find the decoder: 7 = G.711 A-law, 8 = G.711
+// mu-law, 10 = AAC (FLV specification v10.1, E.4.2.1); 13 = Opus is lal's own assignment
+// (base.RtmpSoundFormatOpus), the one its RTMP ingest and its RTSP/TS remuxers read.
+var soundFormat = map[string]byte{"aac": 10, "g711a": 7, "g711u": 8, "opus": 13}
 
 type decoded struct {
 	nals  []obsNal
@@ -802,9 +855,9 @@ func decode(s *Stream, o observed) (*decoded, *pbt.Violation) {
 					ash = append([]byte{}, p[2:]...)
 					continue
 				}
-				d.audio = append(d.audio, obsAudio{b: p[2:], ts: r.Ts, rec: i, ash: ash})
+				d.audio = append(d.audio, obsAudio{b: p[2:], ts: r.Ts, rec: i, fmt: 10, ash: ash})
 			} else {
-				d.audio = append(d.audio, obsAudio{b: p[1:], ts: r.Ts, rec: i})
+				d.audio = append(d.audio, obsAudio{b: p[1:], ts: r.Ts, rec: i, fmt: p[0] >> 4})
 			}
 		}
 	}
@@ -999,6 +1052,11 @@ func judge(s *Stream, e *expectation, o observed) *pbt.Violation {
 				return pbt.V("audio/core-incomplete", "%s: forwarded audio frames cover published indices [%d,%d) but the core is [%d,%d) of %d",
 					who, a, a+len(d.audio), e.aCoreFrom, e.aCoreTo, len(e.a))
 			}
+			for _, f := range d.audio {
+				if f.fmt != soundFormat[s.Audio] {
+					return pbt.V("audio/wrong-sound-format", "%s: audio message %s carries sound format %d, the published codec %s is sound format %d", who, o.recs[f.rec], f.fmt, s.Audio, soundFormat[s.Audio])
+				}
+			}
 			if s.Audio == "aac" {
 				for _, f := range d.audio {
 					if f.ash == nil {
@@ -1101,6 +1159,23 @@ func streamLabels(s *Stream) []string {
 	}
 	if s.Pad >= 1000 {
 		l = append(l, "drift-run")
+	}
+	if n := s.soloN(); n > 0 {
+		x := "solo-run:audio"
+		if s.SoloV {
+			x = "solo-run:video"
+		}
+		if n >= 128 {
+			x += ">=128"
+		} else {
+			x += "<128"
+		}
+		if s.SoloLate {
+			x += "/other-late"
+		} else {
+			x += "/other-silent"
+		}
+		l = append(l, x)
 	}
 	hasTiny, hasTrail, churn, big := false, false, 0, false
 	for _, u := range s.Units[s.NPre:] {
